@@ -306,8 +306,9 @@ PROPS = {
         "gen": ["consts", "shape"],
         "clauses": ["C13"],
         "modes": [{"name": "recv", "harness": "recv", "modelcheck": "recv"},
+                  {"name": "clntseg", "harness": "clntseg", "modelcheck": "recv"},
                   {"name": "clnt", "harness": "clnt", "modelcheck": "clnt"}],
-        "rule": "request streams of 8-40 independent messages (tiny and near-msize Twrite payloads, unknown fids, flushes, walks) with msize 64..4096 so the 8*msize buffer wraps and is reallocated, some ending in an oversize / undersize / undecodable frame; each stream is fed to the real server through a transport whose Read returns exactly the chosen segments: whole stream, every single split point (sampled in quick), one byte at a time, 30 random k-way splits. Oracle: delivered requests (tag, type, frame md5, payload md5 at delivery and at the end), reply bytes and close decision identical to the reference segmentation; correspondence: the Coq loop model on the same segments delivers the same frames and closes iff the server does. Non-trivial: >= 2 segments; distinct by (stream, segmentation).",
+        "rule": "clntseg (the client's loop): a client with msize 64..256 has 20-150 calls outstanding, so that the reply stream fills its 8 x msize receive buffer several times; the scripted peer answers all of them in one stream (Rread with 0..msize-11 data bytes derived from the tag - frames of exactly msize bytes included -, some Rerror, sometimes a bad frame at the end) delivered whole, in pieces of 1..500 bytes and of the buffer size +-, and cut at random points; the frames the callers are handed and the fate of the connection are compared with the Coq loop (clnt_run: buffer length / position bookkeeping, growth in the middle of a message) and between the segmentations of one stream. request streams of 8-40 independent messages (tiny and near-msize Twrite payloads, unknown fids, flushes, walks) with msize 64..4096 so the 8*msize buffer wraps and is reallocated, some ending in an oversize / undersize / undecodable frame; each stream is fed to the real server through a transport whose Read returns exactly the chosen segments: whole stream, every single split point (sampled in quick), one byte at a time, 30 random k-way splits. Oracle: delivered requests (tag, type, frame md5, payload md5 at delivery and at the end), reply bytes and close decision identical to the reference segmentation; correspondence: the Coq loop model on the same segments delivers the same frames and closes iff the server does. Non-trivial: >= 2 segments; distinct by (stream, segmentation).",
         "level_text": "Coq theorems (Props/C13.v): the model of both receive loops (buffer length/pos bookkeeping, inner framing loop, size check, reallocation, parameters re-read after a synchronous Tversion) delivers, for ANY segmentation of the stream into transport reads, exactly the frames of a framing specification that is a function of the concatenated stream only; it closes on a bad frame iff the specification does; it never issues an empty Read; the buffer stays within 8*msize. Unbounded in stream length, message count and segmentation. Tied to the code by running the real server under thousands of segmentations and comparing with the model.",
         "level_note": "Trusted: Coq kernel; translator for the 8*msize buffer factor and IOHDRSZ; extraction and OCaml driver; the Go harness (segment-exact fake net.Conn, hook recv.enqueued as delivery log). The loop model calls the decoder on the accumulated bytes and relies on C02's prefix-only theorem for the stale bytes behind pos; payload immutability is proved on the memory model Recv/Views.v (any reads, deliveries, reallocations; in-buffer compaction refuted), tied to the source by the shape fact that every copy in a receive loop goes into a freshly allocated buffer, and checked by the harness (payload md5 at delivery vs. at the end); the client loop is proved on the model and tied through the C09/C10 client harness. Print Assumptions: closed under the global context.",
         "assumptions": ["net.Conn.Read returns between 1 and len(p) bytes of the stream in order"],
